@@ -486,14 +486,14 @@ Definition nifti_flip (s : state) (sh : list nat) (vo : vorder) : bool :=
 Definition first_file (fi : list entry) : file := e_file (nth 0 fi dflt_entry).
 
 Definition nifti_result (s : state) (sh : list nat) (i0 : nat) (col : option (nat * nat)) (vo : vorder) (em : bool)
-  (dref : file) : nifti_out :=
+  (dref : file) (dt : nat) : nifti_out :=
   let flip := nifti_flip s sh vo in
   let fi := if flip
             then map_chunks (@rev entry) (length (files_info s) / nvols_of_shape sh) (nvols_of_shape sh) (files_info s)
             else files_info s in
   mknifti (ids fi) sh flip i0 col vo em (single_some (rep_times s))
           (option_map (fun p => str_eqb p row_str) (single_some (pe_dirs s)))
-          (f_id dref) (stack_dtype dref) (forallb (fun e => f_has_acq (e_file e)) fi).
+          (f_id dref) dt (forallb (fun e => f_has_acq (e_file e)) fi).
 
 Lemma to_nifti_result st vo em :
   snd (to_nifti st vo em) =
@@ -503,7 +503,7 @@ Lemma to_nifti_result st vo em :
       match snd (get_affine (fst (get_data st))) with
       | Err e => Err e
       | Ok (i0, col) => Ok (nifti_result (fst (get_affine (fst (get_data st)))) sh i0 col vo em
-                                         (data_ref (fst (get_data st))))
+                                         (data_ref (fst (get_data st))) (data_dtype (fst (get_data st))))
       end
   end.
 Proof.
@@ -566,7 +566,7 @@ Proof.
     split; apply Permutation_in, Permutation_map; [|symmetry]; exact Hps. }
   unfold get_affine. rewrite Hag1, Hag2. rewrite <- Hfi.
   destruct (1 <? length (files_info s1) / nvols_of_shape sh) eqn:Hfpv; simpl.
-  - f_equal. unfold nifti_result, nifti_flip, data_ref. simpl. rewrite <- Hfi, Htr, Hpe. reflexivity.
+  - f_equal. unfold nifti_result, nifti_flip, data_ref, data_dtype. simpl. rewrite <- Hfi, Htr, Hpe. reflexivity.
   - apply Nat.ltb_ge in Hfpv.
     assert (He1 : aff_edits s1 = []).
     { destruct (aff_edits s1) eqn:E; [reflexivity|]. exfalso.
@@ -575,7 +575,7 @@ Proof.
     { destruct (aff_edits s2) eqn:E; [reflexivity|]. exfalso.
       destruct Hs2 as [_ [X2 _]]. assert (1 < length (pos_vals s2)); [apply (x_edits s2 X2); rewrite E; discriminate|].
       rewrite <- Hfi in Hfpv2. lia. }
-    rewrite He1, He2. simpl. f_equal. unfold nifti_result, nifti_flip, data_ref. rewrite <- Hfi, Htr, Hpe. reflexivity.
+    rewrite He1, He2. simpl. f_equal. unfold nifti_result, nifti_flip, data_ref, data_dtype. rewrite <- Hfi, Htr, Hpe. reflexivity.
 Qed.
 
 (* ------------------------------------------------------------------------------------------ *)
@@ -695,4 +695,49 @@ Proof.
   pose proof (compute_shape_ok_well_typed st st' sh Hwf0 E) as Hwt.
   destruct (compute_shape_sound st st' sh Hwf0 Hwt E) as [S [T [V [_ _ _ _ _ [fi2 [-> [_ [_ [Hnd _]]]]]]]]].
   exact Hnd.
+Qed.
+
+(* ------------------------------------------------------------------------------------------ *)
+(** * The data type of the array is a function of the multiset of files (fix 63f686b) *)
+
+Lemma list_max_perm l l' : Permutation l l' -> list_max l = list_max l'.
+Proof.
+  intros Hp. apply Nat.le_antisymm; apply list_max_le.
+  - eapply Permutation_Forall; [symmetry; exact Hp|]. apply list_max_le. lia.
+  - eapply Permutation_Forall; [exact Hp|]. apply list_max_le. lia.
+Qed.
+
+Lemma join_dtypes_spec ds :
+  (forall x y, In x ds -> In y ds -> x = y) /\ join_dtypes ds = hd 0 ds \/
+  ~ (forall x y, In x ds -> In y ds -> x = y) /\ join_dtypes ds = 4.
+Proof.
+  destruct ds as [|d r]; [left; split; [intros x y [] | reflexivity]|].
+  cbn [join_dtypes hd]. destruct (forallb (Nat.eqb d) r) eqn:E.
+  - left. split; [|reflexivity]. rewrite forallb_forall in E.
+    assert (H : forall x, In x (d :: r) -> x = d).
+    { intros x [<-|Hx]; [reflexivity|]. symmetry. apply Nat.eqb_eq, E, Hx. }
+    intros x y Hx Hy. rewrite (H x Hx), (H y Hy). reflexivity.
+  - right. split; [|reflexivity]. intros H.
+    assert (forallb (Nat.eqb d) r = true); [|congruence].
+    apply forallb_forall. intros x Hx. apply Nat.eqb_eq. apply H; [left; reflexivity | right; exact Hx].
+Qed.
+
+Lemma join_dtypes_perm ds ds' : Permutation ds ds' -> join_dtypes ds = join_dtypes ds'.
+Proof.
+  intros Hp.
+  assert (Hsame : (forall x y, In x ds -> In y ds -> x = y) <-> (forall x y, In x ds' -> In y ds' -> x = y)).
+  { split; intros H x y Hx Hy; apply H; eapply Permutation_in; try eassumption; symmetry; exact Hp. }
+  destruct (join_dtypes_spec ds) as [[H1 ->] | [H1 ->]], (join_dtypes_spec ds') as [[H2 ->] | [H2 ->]];
+    try reflexivity; try (exfalso; tauto).
+  destruct ds as [|d r].
+  - apply Permutation_nil in Hp. subst. reflexivity.
+  - destruct ds' as [|d' r']; [apply Permutation_sym, Permutation_nil in Hp; discriminate|].
+    simpl. apply H1; [left; reflexivity|]. eapply Permutation_in; [symmetry; exact Hp | left; reflexivity].
+Qed.
+
+Theorem stack_dtype_perm fs fs' : Permutation fs fs' -> stack_dtype fs = stack_dtype fs'.
+Proof.
+  intros Hp. unfold stack_dtype.
+  rewrite (join_dtypes_perm _ _ (Permutation_map f_dtype Hp)).
+  rewrite (list_max_perm _ _ (Permutation_map f_bits Hp)). reflexivity.
 Qed.
